@@ -408,8 +408,9 @@ func canonCrash(kind, eng, point, out string) string {
 // 64 KB file size limit (EFBIG / SIGXFSZ on the first bigger file), so some files arrive whole, one
 // is cut short, the rest is missing, and RunFileSync returns its error. Then, with the normal cp:
 // is the half directory refused, does the next PrepareSnapshot fetch again, does RestoreFromSnapshot
-// end with the source's content. Output: first=<res> half=<refused|ACCEPTED|absent> second=<res> restore=<exact|WRONG|res>.
-func failedFetch(eng string, fillKB int, seed int64) string {
+// end with the source's content. mode "cutwal": the copy completes, the WAL is then cut in half and
+// the command still reports failure. Output: first=<res> half=<refused|ACCEPTED|absent> second=<res> restore=<exact|WRONG|res>.
+func failedFetch(eng string, fillKB int, seed int64, mode string) string {
 	p, err := openPair(eng, [2]int{0, 0})
 	if err != nil {
 		return "openerr"
@@ -435,6 +436,13 @@ func failedFetch(eng string, fillKB int, seed int64) string {
 		return "nocp"
 	}
 	script := "#!/bin/sh\nulimit -f 128\nexec " + realCp + " \"$@\"\n"
+	if mode == "cutwal" {
+		// everything is copied, then the biggest write-ahead log of the destination is cut in half and
+		// the command reports failure: a half checkpoint that every engine still opens
+		script = "#!/bin/sh\n" + realCp + " \"$@\"\nfor a in \"$@\"; do d=\"$a\"; done\n" +
+			"f=$(ls -S \"$d\"/*/*.log 2>/dev/null | head -1)\n" +
+			"[ -n \"$f\" ] && truncate -s $(( $(stat -c %s \"$f\") / 2 )) \"$f\"\nexit 1\n"
+	}
 	if err := ioutil.WriteFile(path.Join(wrap, "cp"), []byte(script), 0755); err != nil {
 		return "mkerr"
 	}
